@@ -86,7 +86,8 @@ pub fn for_case(case: &Case) -> Box<dyn Oracle> {
         "C06" => Box::new(ReuseOracle::new(case, Modes { justify: true, ts_identity: true, ..Default::default() })),
         "C05" => Box::new(ReuseOracle::new(case, Modes { justify: true, lru: true, ..Default::default() })),
         "C12" | "C13" | "C14" | "C15" => Box::new(CycleOracle::default()),
-        "C09" => Box::new(ReuseOracle::new(case, Modes { justify: true, intern: true, ..Default::default() })),
+        "C26" => Box::new(ReuseOracle::new(case, Modes { justify: true, ..Default::default() })),
+        "C08" | "C09" => Box::new(ReuseOracle::new(case, Modes { justify: true, intern: true, ..Default::default() })),
         "C07" => Box::new(crate::alias::AliasOracle { inner: Some(Box::new(ReuseOracle::new(case, Modes { justify: true, ..Default::default() }))), ..Default::default() }),
         _ => Box::new(NoOracle),
     }
@@ -137,6 +138,7 @@ pub fn accumulated_step(e: &mut E1, n: usize, arg: u32) {
         Err(p) => match panic_kind(&p) {
             PK::Injected(..) => {
                 info.injected = true;
+                e.injected_now = true;
                 e.out.bump("fault_panic_reached_caller")
             }
             pk if aborted => {
@@ -152,5 +154,51 @@ pub fn accumulated_step(e: &mut E1, n: usize, arg: u32) {
 }
 
 pub fn special_step(e: &mut E1, st: Step) {
-    let _ = (e, st);
+    match st {
+        Step::SnapshotRestore => snapshot_restore(e),
+        _ => {}
+    }
+}
+
+#[cfg(not(feature = "persistence"))]
+fn snapshot_restore(_e: &mut E1) {}
+
+#[cfg(feature = "persistence")]
+fn snapshot_restore(e: &mut E1) {
+    let step = e.step;
+    let shared = e.db.as_ref().unwrap().shared.clone();
+    let mut old = e.db.take().unwrap();
+    let snap = catch_unwind(AssertUnwindSafe(|| old.snapshot()));
+    let json = match snap {
+        Ok(j) => j,
+        Err(p) => {
+            e.out.viol("snapshot_panicked", step, format!("serializing the database panicked: {:?}", panic_kind(&p)));
+            e.db = Some(old);
+            return;
+        }
+    };
+    e.out.add("snapshot_bytes", json.len() as u64);
+    let restored = catch_unwind(AssertUnwindSafe(|| SimDatabase::restore(shared, &json)));
+    match restored {
+        Ok(db) => {
+            drop(old);
+            e.db = Some(db);
+            e.out.bump("restores");
+        }
+        Err(p) => {
+            let pk = panic_kind(&p);
+            let class = match &pk {
+                PK::Msg(m) if m.contains("values are serialized in allocation order") => "restore_allocation_order_panic",
+                _ => "restore_panicked",
+            };
+            e.out.viol(class, step, format!("deserializing into a fresh database panicked: {pk:?}"));
+            e.db = Some(old);
+            e.stop_run = true;
+            return;
+        }
+    }
+    let evs = e.db.as_ref().unwrap().shared.take_log();
+    let db = e.db.as_ref().unwrap();
+    let info = StepInfo::other("restore");
+    e.oracles.after_step(db, &e.world, step, &info, &evs, &mut e.out);
 }
